@@ -50,6 +50,7 @@ std::string base_bytes(const std::string& base);
 // Clear cctz's name cache (test-only API of the library) so that every
 // execution starts from the same library state.
 void clear_zone_cache();
+extern bool g_cold_start;   // --cold: leave the library exactly as a fresh process has it (no cache reset, no UTC touch)
 
 std::string strip_salt(const std::string& s, const std::string& salt);
 std::string fixed_abbr(int64_t offset);      // independent re-implementation of the documented abbreviation
